@@ -9,7 +9,7 @@ import depccg.parsing as P
 PRE = '''From Coq Require Import List NArith ZArith Bool.
 Import ListNotations.
 Require Import Cat CatFacts CatLex Filter GenTables.
-Open Scope nat_scope.
+Open Scope N_scope.
 Fixpoint list_eqb {A} (f : A -> A -> bool) (a b : list A) : bool :=
   match a, b with [], [] => true | x :: a', y :: b' => f x y && list_eqb f a' b' | _, _ => false end.
 Definition mat_eqb (a b : mat) : bool := Nat.eqb (ncols a) (ncols b) && list_eqb (list_eqb Z.eqb) (rows a) (rows b).
@@ -51,7 +51,7 @@ def gmat(a):
             assert float(iv) == float(v), f'non-integer score {v!r}'
             vals.append(str(iv))
         rows.append('[' + ';'.join(vals) + ']')
-    return f'(mkMat {a.shape[1]} ([' + ';'.join(rows) + '])%Z)'
+    return f'(mkMat {a.shape[1]}%nat ([' + ';'.join(rows) + '])%Z)'
 
 
 def gsc(tag, dep):
@@ -169,7 +169,7 @@ def run(ctx):
                 passed = arrs[:1] if sform == 'one' else arrs
                 cases.append(f'ChkF ({neg})%Z {glist(cats, gcat)} {gcd(cd)} {gdoc(dform, sents)} {gscarg(sform, arrs0)} {exp} {glist(passed, lambda p: gsc(*p))}')
             else:
-                cases.append(f'ChkT {len(cats)} {gdoc(dform, sents)} {gscarg(sform, arrs0)} {exp}')
+                cases.append(f'ChkT {len(cats)}%nat {gdoc(dform, sents)} {gscarg(sform, arrs0)} {exp}')
             descr.append((fn, kind, dform, sform, sents, [str(c) for c in cats], data['dictionary'], obs[0] if obs[0] == 'ok' else obs[1]))
         # ---- independent oracle: the property, with plain loops on the copies
         if fn != 'filter':
@@ -329,9 +329,9 @@ def run(ctx):
         cd = rand_dict(rng, cats, list({w for s in sents for w in s}))
         ids = {str(c): i for i, c in enumerate(cats)}
         obs = observe('filter', [mk_tokens(rng, s) for s in sents], [ScoringResult(t, d) for t, d in arrs], list(cats), {w: list(cs) for w, cs in cd.items()}, -77.0)
-        dix = glist(list(cd.items()), lambda kv: f'({lit(kv[0])}, {glist([ids[str(c)] for c in kv[1]], str)})')
+        dix = glist(list(cd.items()), lambda kv: f'({lit(kv[0])}, {glist([ids[str(c)] for c in kv[1]], lambda i: str(i) + '%nat')})')
         exp = f'(Some {glist(arrs, lambda p: gsc(*p))})' if obs[0] == 'ok' else 'None'
-        cases.append(f'ChkA (-77)%Z {dix} {len(cats)} {glist(sents, lambda s: glist(s, lit))} {glist(arrs0, lambda p: gsc(*p))} {exp}')
+        cases.append(f'ChkA (-77)%Z {dix} {len(cats)}%nat {glist(sents, lambda s: glist(s, lit))} {glist(arrs0, lambda p: gsc(*p))} {exp}')
         descr.append(('apply_filter', sents, [str(c) for c in cats], {w: [str(c) for c in cs] for w, cs in cd.items()}, obs[0]))
         acases += 1
     ctx.stats['apply_filter_index_cases'] = acases
